@@ -193,6 +193,8 @@ type Stats struct {
 }
 
 type Sim struct {
+	knownViol *Violation // first hit of a known-finding class in a run that was allowed to continue
+
 	trapAt int64 // experiment knob VERIF_EXP_TRAP
 
 	sc    *Scenario
@@ -315,6 +317,23 @@ func (s *Sim) after(d int64, ev *Event) {
 	s.push(ev)
 }
 
+// KnownClasses: violation classes of reproduced known findings (set by the worker).  An oracle
+// that can go on judging after such a hit calls ViolateKnown, which records the first hit and
+// lets the run continue; the hit becomes the run's result only if nothing else is found.
+var KnownClasses = map[string]bool{}
+
+func (s *Sim) ViolateKnown(prop, class, detail string, node int) bool {
+	if !KnownClasses[class] {
+		s.Violate(prop, class, detail, node)
+		return false
+	}
+	if s.knownViol == nil {
+		s.knownViol = &Violation{Prop: prop, Class: class, Detail: detail, Seq: s.seq, At: s.now, Node: node}
+	}
+	s.note("known_finding_hit_run_continued")
+	return true
+}
+
 func (s *Sim) Violate(prop, class, detail string, node int) {
 	if s.viol != nil {
 		return
@@ -421,6 +440,9 @@ func (s *Sim) loop() {
 				break
 			}
 		}
+	}
+	if s.viol == nil && s.knownViol != nil {
+		s.viol = s.knownViol
 	}
 	if s.trapAt > 0 && s.viol == nil && len(s.oracles) > 0 {
 		s.Violate(s.oracles[0].Name(), "exp_trap", fmt.Sprintf("note %q at t=%.3f s", expTrap, float64(s.trapAt)/1e9), 0)
